@@ -37,7 +37,7 @@ ASSUMPTIONS = [
 
 def run(ctx: Ctx):
   m = model(ctx)
-  for r in (r1, r2, r3, r4, r5, r7, r8, r9, r10):
+  for r in (r1, r2, r3, r4, r5, r7, r8, r9, r10, r11):
     ctx.guard(r, m)
   from mlmverif.props import c04
   ctx.include('R-C05-6', '"never an indefinite wait": the queue\'s monitor'
@@ -771,10 +771,65 @@ def r10(ctx: Ctx, m):
   ctx.floor(rule, 5, n)
 
 
+def r11(ctx: Ctx, m):
+  rule = 'R-C05-11'
+  ctx.rule(rule, '"if any producer\'s iterator raises, every consumer observes that exception (never ... an indefinite wait)" —'
+           ' whatever its TYPE: the non-blocking attempt re-raises the recorded failure, and the blocking consumers wrap'
+           ' that attempt in a handler for the buffer\'s own "nothing there" signal (queue.Empty / asyncio.QueueEmpty) in'
+           ' which they wait or retry. A producer failure that happens to be of that type (a source reading another queue)'
+           ' would be caught there: so every such handler around a call that can re-raise the recorded failure first tests'
+           ' the identity (`e is self._exception`) and re-raises')
+  n = 0
+  # attempts that can re-raise the recorded failure
+  reraisers = set()
+  for fi in m.methods():
+    for r_ in ast.walk(fi.node):
+      if isinstance(r_, ast.Raise) and r_.exc is not None and any(
+          is_self_attr(y) and y.attr in ('exception', '_exception') for y in ast.walk(r_.exc)):
+        reraisers.add(fi.name)
+  if not reraisers:
+    raise AnalysisError(f'{rule}: no method re-raises the recorded failure any more')
+  for fi in m.methods():
+    for t in ast.walk(fi.node):
+      if not isinstance(t, ast.Try):
+        continue
+      calls = [c for b in t.body for c in ast.walk(b) if isinstance(c, ast.Call) and isinstance(c.func, ast.Attribute)
+               and is_self_attr(c.func) and c.func.attr in reraisers]
+      if not calls:
+        continue
+      for h in t.handlers:
+        types = [] if h.type is None else ([unparse(e) for e in h.type.elts] if isinstance(h.type, ast.Tuple) else [unparse(h.type)])
+        if not any(ty.endswith(('Empty', 'QueueEmpty')) for ty in types):
+          continue
+        n += 1
+        ok = False
+        if h.name and h.body:
+          first = h.body[0]
+          if isinstance(first, ast.If) and isinstance(first.test, ast.Compare) and len(first.test.ops) == 1 and isinstance(
+              first.test.ops[0], ast.Is):
+            sides = {unparse(first.test.left), unparse(first.test.comparators[0])}
+            if h.name in sides and sides & {'self._exception', 'self.exception'} and any(
+                isinstance(r_, ast.Raise) and (r_.exc is None or unparse(r_.exc) == h.name) for r_ in first.body):
+              ok = True
+        what = f'{fi.qualname}: the handler of the empty-buffer signal lets the recorded failure through'
+        if ok:
+          ctx.ok(rule, fi, what, h)
+        else:
+          ctx.fail(rule, fi, what,
+                   f'`except {unparse(h.type)[:50]}` around `{unparse(calls[0])}` in {fi.qualname} also catches the recorded producer'
+                   f' failure when that failure is itself a queue.Empty (`{unparse(calls[0].func)}` re-raises it): the consumer then'
+                   ' waits for its timeout or retries for ever instead of observing the exception. Test `e is self._exception`'
+                   ' first and re-raise', node=h)
+  ctx.floor(rule, 2, n)
+
+
 from mlmverif.selfcheck import B, OK  # noqa: E402
 
 _F = 'utils/iter_utils.py'
 VARIANTS = [
+    B('revert-get-takes-an-empty-typed-failure-for-an-empty-buffer', _F,
+      "          if e is self._exception:\n            # The enqueuer failed with this very error: not an empty buffer.\n            raise\n          logging.debug(\n              'chainable: %s', f'\"{self.name}\" dequeue empty, waiting'",
+      "          logging.debug(\n              'chainable: %s', f'\"{self.name}\" dequeue empty, waiting'", 'R-C05-11'),
     B('revert-async-open-outside-the-handler', _F,
       "    self._start_enqueue()\n    try:\n      if isinstance(iterator, Awaitable):\n        iterator = await iterator\n      if not isinstance(iterator, AsyncIterator):\n        iterator = aiter(iterator)\n    except Exception as e:  # pylint: disable=broad-exception-caught\n      # Same as enqueue_from_iterator: the iterable can fail before yielding\n      # anything, the consumers have to see this as any other enqueue failure.\n      e.add_note(f'Exception during async enqueueing {self.name}')\n      logging.exception('chainable: %s', f'{self.name} enqueue failed.')\n      self._exception = e\n      self._stop_enqueue()\n      raise e\n",
       "    if isinstance(iterator, Awaitable):\n      iterator = await iterator\n    if not isinstance(iterator, AsyncIterator):\n      iterator = aiter(iterator)\n    self._start_enqueue()\n", 'R-C05-10'),
